@@ -5,11 +5,15 @@ set -u
 V=/verif
 pat="${1:-}"
 fail=0
+# frozen snapshot of /repo: the mutants are derived from it, so /repo may be edited while the selftest runs
+BASE=$(mktemp -d /tmp/govc-selftest-base-XXXXXX)
+rsync -a --exclude .git /repo/ $BASE/
+trap 'rm -rf $BASE' EXIT
 for p in $V/selftest/mutants/*${pat}*.patch; do
   name=$(basename $p .patch)
   prop=${name%%-*}
   d=$(mktemp -d /tmp/govc-mut-XXXXXX)
-  rsync -a --exclude .git /repo/ $d/
+  rsync -a $BASE/ $d/
   if ! (cd $d && patch -s -p1 < $p); then echo "SELFTEST $name: patch does not apply"; fail=1; rm -rf $d; continue; fi
   if ! (cd $d && GOFLAGS=-mod=mod go build ./... 2>/dev/null); then echo "SELFTEST $name: mutant does not compile"; fail=1; rm -rf $d; continue; fi
   out=$(GOVC_REPO=$d GOVC_EVIDENCE=/tmp/govc-mut-evidence $V/bin/govc check --property $prop --tier quick 2>&1)
